@@ -1,14 +1,6 @@
-#[macro_use]
-pub mod engine;
-pub mod gen;
-pub mod oracle;
-pub mod props;
-pub mod merge;
-pub mod isolate;
-pub mod selftest;
-pub mod cli;
+use vh::{engine, merge, props, selftest};
 
-use engine::{Ctx, Tier};
+use vh::engine::{Ctx, Tier};
 
 type Runner = fn(&mut Ctx);
 
